@@ -281,7 +281,13 @@ func (g *G) Expr(ty m.Ty, d int) *m.Node {
 	if g.Failing {
 		fw = 1
 	}
-	switch pickW(g.t, "shape", 2, 8, 2, cw, fw) {
+	iw := 0
+	if ty == m.TBool {
+		iw = 1
+	}
+	switch pickW(g.t, "shape", 2, 8, 2, cw, fw, iw) {
+	case 5:
+		return g.idiom(d)
 	case 0:
 		return g.Leaf(ty)
 	case 2:
@@ -740,4 +746,89 @@ func (g *G) duplicateOperands(tree *m.Node) {
 	}
 	src := grp[from].parent.Kids[grp[from].idx]
 	grp[to].parent.Kids[grp[to].idx] = src.Clone()
+}
+
+// idiom returns one of the boolean shapes people actually write - and that peephole rewrites
+// therefore target: range checks, guards, negated comparisons, De Morgan and absorption shapes,
+// trivial ifs, identity arithmetic under a comparison, a thing compared with itself, singleton
+// lists. Operands are leaves or small sub-expressions; the same variable occurs more than once.
+func (g *G) idiom(d int) *m.Node {
+	x := m.Var(g.varName(m.TInt))
+	p := m.Var(g.varName(m.TBool))
+	li := func() *m.Node { return g.Leaf(m.TInt) }
+	sub := func() *m.Node { return g.Expr(m.TBool, d-1) }
+	switch rapid.IntRange(0, 17).Draw(g.t, "idiom") {
+	case 0:
+		return m.Op(g.alias("and", "&&"), m.Op(g.alias(">=", "ge"), x, li()), m.Op(g.alias("<=", "le"), x.Clone(), li()))
+	case 1:
+		return m.Op(g.alias("and", "&"), m.Op(g.alias("<", "lt", "<=", "le"), x, li()), m.Op(g.alias(">", "gt", ">=", "ge"), x.Clone(), li()))
+	case 2:
+		return m.Op(g.alias("or", "||"), m.Op(g.alias("<", "lt"), x, li()), m.Op(g.alias(">", "gt"), x.Clone(), li()))
+	case 3: // guard
+		return m.Op(g.alias("and", "&&"), m.Op(g.alias("!=", "ne"), x, m.Const(int64(0))), m.Op(g.alias(">", ">=", "="), m.Op(g.alias("/", "div", "%"), li(), x.Clone()), li()))
+	case 4:
+		return m.Op(g.alias("or", "|"), m.Op(g.alias("=", "eq"), x, m.Const(int64(0))), m.Op(g.alias("<", "!="), m.Op(g.alias("/", "mod"), li(), x.Clone()), li()))
+	case 5: // negated comparisons, n-ary equality included
+		n := rapid.IntRange(2, 4).Draw(g.t, "idiom_eqn")
+		ks := make([]*m.Node, n)
+		for i := range ks {
+			ks[i] = li()
+		}
+		return m.Op(g.alias("not", "!"), m.Op(g.alias("=", "==", "eq"), ks...))
+	case 6:
+		return m.Op(g.alias("not", "!"), m.Op(g.alias("<", ">", "<=", ">=", "!=", "lt", "ge", "ne"), li(), li()))
+	case 7:
+		return m.Op(g.alias("not", "!"), m.Op(g.alias("not", "!"), sub()))
+	case 8: // De Morgan shapes
+		return m.Op(g.alias("not", "!"), m.Op(g.alias("and", "or", "&&", "||"), sub(), sub()))
+	case 9:
+		return m.Op(g.alias("and", "or"), m.Op("not", sub()), m.Op("!", sub()))
+	case 10: // absorption / idempotence / excluded middle
+		q := sub()
+		return m.Op(g.alias("or", "and"), p, m.Op(g.alias("and", "or"), p.Clone(), q))
+	case 11:
+		return m.Op(g.alias("and", "or", "xor"), p, p.Clone())
+	case 12:
+		return m.Op(g.alias("or", "and"), p, m.Op(g.alias("not", "!"), p.Clone()))
+	case 13: // trivial ifs
+		c := sub()
+		switch rapid.IntRange(0, 3).Draw(g.t, "idiom_if") {
+		case 0:
+			return m.If(c, m.Const(true), m.Const(false))
+		case 1:
+			return m.If(c, m.Const(false), m.Const(true))
+		case 2:
+			return m.If(c, p, p.Clone())
+		default:
+			return m.If(m.Op(g.alias("not", "!"), c), sub(), sub())
+		}
+	case 14: // identity arithmetic under a comparison
+		var a *m.Node
+		switch rapid.IntRange(0, 4).Draw(g.t, "idiom_id") {
+		case 0:
+			a = m.Op(g.alias("+", "add"), x, m.Const(int64(0)))
+		case 1:
+			a = m.Op(g.alias("*", "mul"), m.Const(int64(1)), x)
+		case 2:
+			a = m.Op(g.alias("-", "sub"), x, x.Clone())
+		case 3:
+			a = m.Op(g.alias("/", "div"), x, m.Const(int64(1)))
+		default:
+			a = m.Op(g.alias("*", "mul"), x, m.Const(int64(0)))
+		}
+		return m.Op(g.alias("=", ">", "<=", "!="), a, li())
+	case 15: // a thing against itself
+		return m.Op(g.alias("=", "!=", "<=", "<", "eq", "ne", "ge", "gt"), x, x.Clone())
+	case 16: // singleton and empty lists
+		switch rapid.IntRange(0, 2).Draw(g.t, "idiom_list") {
+		case 0:
+			return m.Op("in", x, m.Const([]int64{rapid.Int64Range(-2, 3).Draw(g.t, "idiom_k")}))
+		case 1:
+			return m.Op("in", m.Var(g.varName(m.TStr)), m.Const([]string{rapid.SampledFrom(strElemPool).Draw(g.t, "idiom_s")}))
+		default:
+			return m.Op("overlap", m.Const([]int64{rapid.Int64Range(-2, 3).Draw(g.t, "idiom_k2")}), g.Leaf(m.TIntList))
+		}
+	default: // between written out, and the real thing
+		return m.Op(g.alias("and", "or"), m.Op("between", x, li(), li()), m.Op(g.alias(">=", "<"), x.Clone(), li()))
+	}
 }
